@@ -75,6 +75,7 @@ Definition tied (fid : N) (s : string) : string :=
   | 22 => match to_float_form s with
           | ReadAsIs t => "F" ++ t | ReadFortran t => "X" ++ t | NotRead => "N"
           end
+  | 23 => match to_float_form s with NotRead => "N" | _ => "A" end
   | _ => "?"
   end%N.
 
